@@ -187,6 +187,8 @@ impl StaticSound {
 impl Sound for StaticSound {
 	fn on_start_processing(&mut self) {
 		let last_played_frame_position = self.resampler.current_frame_index();
+		#[cfg(kira_verif)]
+		crate::verif::yield_point("static.position.store");
 		self.shared.position.store(
 			(last_played_frame_position as f64 / self.sample_rate as f64).to_bits(),
 			Ordering::SeqCst,
@@ -255,6 +257,8 @@ pub(super) struct Shared {
 
 impl Shared {
 	pub fn state(&self) -> PlaybackState {
+		#[cfg(kira_verif)]
+		crate::verif::yield_point("static.state.load");
 		match self.state.load(Ordering::SeqCst) {
 			0 => PlaybackState::Playing,
 			1 => PlaybackState::Pausing,
@@ -268,10 +272,14 @@ impl Shared {
 	}
 
 	pub fn set_state(&self, state: PlaybackState) {
+		#[cfg(kira_verif)]
+		crate::verif::yield_point("static.state.store");
 		self.state.store(state as u8, Ordering::SeqCst);
 	}
 
 	pub fn position(&self) -> f64 {
+		#[cfg(kira_verif)]
+		crate::verif::yield_point("static.position.load");
 		f64::from_bits(self.position.load(Ordering::SeqCst))
 	}
 }
